@@ -1266,8 +1266,8 @@ class tensor:
         if order.size == 0:
             return self.copy()
 
-        # Check for special case of an order-1 object, has no effect
-        if (order == 1).all():
+        # Check for special case of the identity order, has no effect
+        if np.array_equal(order, np.arange(self.ndims)):
             return self.copy()
 
         # Np transpose does error checking on order, acts as permutation
